@@ -243,6 +243,26 @@ func checkC16(c c16Case) error {
 		forms["zero-appended"] = append(append([]byte{}, exact...), 0)
 		forms["halves-swapped"] = append(append([]byte{}, exact[n:]...), exact[:n]...)
 		forms["one-half-shifted"] = append(append([]byte{}, exact[1:]...), 0)
+		// the same residues outside [1, n-1]: r + order / s + order still fit the fixed width on P-521
+		// (and, rarely, elsewhere); an integer >= the order is not part of any valid signature
+		rN, sN := new(big.Int).Add(r, order), new(big.Int).Add(s, order)
+		fits := func(v *big.Int) bool { return v.BitLen() <= 8*n }
+		put := func(name string, a, b *big.Int) {
+			out := make([]byte, 2*n)
+			a.FillBytes(out[:n])
+			b.FillBytes(out[n:])
+			forms[name] = out
+			stats.Class("verify/form/" + name)
+		}
+		if fits(rN) {
+			put("r-plus-order", rN, s)
+		}
+		if fits(sN) {
+			put("s-plus-order", r, sN)
+		}
+		if fits(rN) && fits(sN) {
+			put("both-plus-order", rN, sN)
+		}
 		for l := 0; l <= 2*n+4; l++ {
 			b := make([]byte, l)
 			copy(b, exact)
